@@ -5,6 +5,8 @@ package c01
 import (
 	"crypto/tls"
 	"fmt"
+	"io"
+	"log"
 	"strings"
 	"sync"
 	"testing"
@@ -22,6 +24,8 @@ import (
 )
 
 func TestMain(m *testing.M) { vstat.Main(m) }
+
+var discardLog = log.New(io.Discard, "", 0)
 
 type PureScript struct {
 	Spec    hellogen.Spec `json:"spec"`
@@ -84,6 +88,12 @@ func execPure(s PureScript) *vstat.Violation {
 	want := hello.JA3(p)
 	wantStr := hello.JA3String(p)
 	md := &metadata.Metadata{ClientHelloRecord: rec}
+	// every third hello is fingerprinted with the package's verbose logging on (what -verbose does; the log goes nowhere)
+	if len(rec)%3 == 0 {
+		fingerprint.VerboseLogs, fingerprint.Logger = true, discardLog
+		defer func() { fingerprint.VerboseLogs, fingerprint.Logger = false, nil }()
+		colPure.Class("verbose-logging-on", 1)
+	}
 	got, err := fingerprint.JA3Fingerprint(md)
 	if err != nil {
 		return vstat.Violf(special(s.Classes)+"|ja3-error", "JA3Fingerprint error %v; reference %q", err, wantStr)
